@@ -159,29 +159,56 @@ theorem guard_true_not_noOversub {e : Emu} {ci : Nat} {c : Cpu} (hc : e.cpus[ci]
   rw [runCount_absOf, ← runOf_length_spec hag hm] at this
   omega
 
+theorem ChanOK.setv_same {c : Chan} {v : Value} {ign : Bool} (h : ChanOK c v ign) : c.setv v = c := by
+  unfold Chan.setv; rw [if_pos h.last]
+
+/-- the state before the flush: the three channels of the changed thread have been written with
+    the values of its new logical state (a write of the value a channel already has leaves it
+    untouched), every other thread is untouched -/
+def Pre (e : Emu) (ti : Nat) (x : ThState × Option Nat) (e1 : Emu) : Prop :=
+  (∃ t t1, e.threads[ti]? = some t ∧ e1.threads[ti]? = some t1 ∧ t1.gindex = ti ∧ t1.tid = t.tid ∧
+    t1.chState = t.chState.setv (stateVal x.1) ∧ t1.chTid = t.chTid.setv (tidVal x.1 t.tid) ∧
+    t1.chCpu = t.chCpu.setv (cpuVal x.2)) ∧
+  (∀ j, j ≠ ti → e1.threads[j]? = e.threads[j]?) ∧ e1.enabled = e.enabled
+
+theorem pre_of {e : Emu} {ti : Nat} {t : Thread} (ht : e.threads[ti]? = some t) {n : Nat}
+    (_hth : ThreadOK n ti t) (t1 : Thread) (cpus' : List Cpu)
+    (x : ThState × Option Nat) (h1 : t1.gindex = ti) (h2 : t1.tid = t.tid)
+    (h3 : t1.chState = t.chState.setv (stateVal x.1)) (h4 : t1.chTid = t.chTid.setv (tidVal x.1 t.tid))
+    (h5 : t1.chCpu = t.chCpu.setv (cpuVal x.2)) :
+    Pre e ti x ({ e with threads := e.threads.set ti t1, cpus := cpus' } : Emu) := by
+  refine ⟨⟨t, t1, ht, ?_, h1, h2, h3, h4, h5⟩, fun j hj => ?_, rfl⟩
+  · show (e.threads.set ti t1)[ti]? = some t1
+    exact List.getElem?_set_self (lt_of_getElem? ht)
+  · show (e.threads.set ti t1)[j]? = e.threads[j]?
+    exact List.getElem?_set_ne (fun h => hj h.symm)
+
 /-- what every handler theorem states: acceptance is exactly "no physical CPU oversubscribed in
     the logical result", and an accepted step yields a well-formed state with that result -/
 def Outcome (e : Emu) (ti : Nat) (x : ThState × Option Nat) (r : Except Err Emu) : Prop :=
   ((∃ e1, r = .ok e1) ↔ NoOversub e.phys ((absOf e.threads).set ti x)) ∧
-  (∀ e1, r = .ok e1 → StepOK e ti x e1.flushAll)
+  (∀ e1, r = .ok e1 → StepOK e ti x e1.flushAll) ∧
+  (∀ e1, r = .ok e1 → Pre e ti x e1)
 
 theorem outcome_of_closed {e : Emu} {ti : Nat} {x : ThState × Option Nat} {r : Except Err Emu} {g : Bool}
     {eok : Emu} (hr : r = if g then .error .oversub else .ok eok)
     (hgt : g = true → ¬ NoOversub e.phys ((absOf e.threads).set ti x))
-    (hgf : g = false → StepOK e ti x eok.flushAll) : Outcome e ti x r := by
+    (hgf : g = false → StepOK e ti x eok.flushAll) (hpre : Pre e ti x eok) : Outcome e ti x r := by
   cases g with
   | true =>
     simp only [if_true] at hr
     subst hr
-    refine ⟨⟨?_, fun hn => absurd hn (hgt rfl)⟩, ?_⟩
+    refine ⟨⟨?_, fun hn => absurd hn (hgt rfl)⟩, ?_, ?_⟩
     · rintro ⟨e1, he1⟩; cases he1
+    · intro e1 he1; cases he1
     · intro e1 he1; cases he1
   | false =>
     simp only [Bool.false_eq_true, if_false] at hr
     subst hr
     have hs := hgf rfl
-    refine ⟨⟨fun _ => hs.noOversub, fun _ => ⟨eok, rfl⟩⟩, ?_⟩
-    intro e1 he1; cases he1; exact hs
+    refine ⟨⟨fun _ => hs.noOversub, fun _ => ⟨eok, rfl⟩⟩, ?_, ?_⟩
+    · intro e1 he1; cases he1; exact hs
+    · intro e1 he1; cases he1; exact hpre
 
 theorem change_outcome {e : Emu} (h : WF e) {ti : Nat} {t : Thread} (ht : e.threads[ti]? = some t)
     (ok : ThState → Bool) (st : ThState) {ci : Nat} (hcpu : t.cpu = some ci) (hok : ok t.state = true)
@@ -192,6 +219,8 @@ theorem change_outcome {e : Emu} (h : WF e) {ti : Nat} {t : Thread} (ht : e.thre
     ⟨_, List.getElem?_eq_getElem (hth.cpuLt ci hcpu)⟩
   have hcp := h.cpu ci c hc
   refine outcome_of_closed (preThreadChange_eq h ht ok st hcpu hc hok hne hl1) ?_ ?_
+    (pre_of ht hth (t.withState st) _ _ hth.gidx rfl (by rw [stateVal_of_ne hl1]; rfl) rfl
+      (by show t.chCpu = t.chCpu.setv (cpuVal (some ci)); rw [← hcpu, hth.chCpu.setv_same]))
   · intro hg
     have := guard_true_not_noOversub hc (thsX := e.threads.set ti (t.withState st)) (fun _ _ => rfl)
       (hcp.mem.set_same ht rfl) hg
@@ -215,6 +244,7 @@ theorem execute_outcome {e : Emu} (h : WF e) {ti : Nat} {t : Thread} (ht : e.thr
     rw [h'] at this
     rcases this with h'' | h'' <;> cases h''
   refine outcome_of_closed (preThreadExecute_eq h ht hst hlen hci hnone hc) ?_ ?_
+    (pre_of ht hth (t.executed ci) _ _ hth.gidx rfl rfl rfl rfl)
   · intro hg
     have := guard_true_not_noOversub hc (thsX := e.threads.set ti (t.executed ci)) (fun _ _ => rfl)
       (hcp.mem.set_add ht (by rw [hnone]; simp) rfl) hg
@@ -244,6 +274,7 @@ theorem end_outcome {e : Emu} (h : WF e) {ti : Nat} {t : Thread} (ht : e.threads
       exact ((hcp.mem.nodup.mem_erase_iff).mp hi).1 rfl
     rw [List.getElem?_set_ne hne, List.getElem?_set_ne hne]
   refine outcome_of_closed (preThreadEnd_eq h ht hst hcpu hc) ?_ ?_
+    (pre_of ht hth t.ended _ _ hth.gidx rfl rfl rfl rfl)
   · intro hg
     have := guard_true_not_noOversub hc hag
       (hcp.mem.set_remove ht (t' := t.ended) (by show (none : Option Nat) ≠ some ci; simp)) hg
@@ -268,6 +299,9 @@ theorem migrate_outcome {e : Emu} (h : WF e) {ti : Nat} {t : Thread} (ht : e.thr
     cases overGuard e.threads (cf.threads.erase ti) cf.virt <;>
       cases overGuard e.threads (ct.threads ++ [ti]) ct.virt <;> rfl
   refine outcome_of_closed hcl ?_ ?_
+    (pre_of ht hth (t.withCpu (some to)) _ _ hth.gidx rfl
+      (by show t.chState = _; rw [hth.chState.setv_same])
+      (by show t.chTid = _; rw [hth.chTid.setv_same]) rfl)
   · intro hg
     rw [Bool.or_eq_true] at hg
     have habs : absOf (e.threads.set ti (t.withCpu (some to))) = (absOf e.threads).set ti (t.state, some to) :=
@@ -465,8 +499,12 @@ theorem outcome_noop {e : Emu} (h : WF e) {ti : Nat} {t : Thread} (ht : e.thread
     refine ⟨wf_flushAll h, ?_, SameStatic.flushAll e⟩
     rw [habs, Emu.flushAll_eq]
     exact absOf_map_flush _
-  refine ⟨⟨fun _ => hs.noOversub, fun _ => ⟨e, rfl⟩⟩, ?_⟩
-  intro e1 he1; cases he1; exact hs
+  have hth := h.th ti t ht
+  refine ⟨⟨fun _ => hs.noOversub, fun _ => ⟨e, rfl⟩⟩, ?_, ?_⟩
+  · intro e1 he1; cases he1; exact hs
+  · intro e1 he1; cases he1
+    exact ⟨⟨t, t, ht, ht, hth.gidx, rfl, by rw [hth.chState.setv_same], by rw [hth.chTid.setv_same],
+      by rw [hth.chCpu.setv_same]⟩, fun _ _ => rfl, rfl⟩
 
 /-- OAs: the thread must be active; then it is bound to the named CPU -/
 theorem preAffinitySet_verdict {e : Emu} (h : WF e) {ti : Nat} {t : Thread} (ht : e.threads[ti]? = some t)
